@@ -14,6 +14,17 @@ use rdest::verif::Status;
 use serde_json::{json, Value};
 use std::path::PathBuf;
 
+#[derive(Clone, Copy, PartialEq, Debug)]
+pub enum Focus {
+    All,
+    /// 'Have implies a stored verified piece', 'owned stays owned' (C01)
+    Storage,
+    /// reservations are held by connected peers, at most one holder per piece, no task panics (C12)
+    Reservation,
+    /// a peer presenting the announced id stays connected, one presenting another id is dropped (C08)
+    Identity,
+}
+
 #[derive(Clone)]
 pub struct Swarm {
     pub label: &'static str,
@@ -42,8 +53,17 @@ pub struct Swarm {
     pub tracker_later: Option<Vec<usize>>,
     /// The manager's broadcasts are held back per connection task until an `rl<i>` event.
     pub gated: bool,
-    /// Evaluate only the storage invariants (used by C01, which borrows these scenarios).
-    pub storage_only: bool,
+    /// Which invariants are evaluated: C02 itself evaluates all; C01, C12 and C08 borrow scenarios and
+    /// evaluate only their own property's invariants.
+    pub focus: Focus,
+    /// Peer i presents the peer id announced for peer k (empty / None: its own).
+    pub present_id_of: Vec<Option<usize>>,
+    /// Peers that own nothing and only keep their connection alive: they handshake at once, take
+    /// part in no search event (except leaving, if allowed) and send a live message per interval
+    /// during the fair continuation.
+    pub inert: Vec<bool>,
+    /// Peers that refuse to be connected to again once they have left.
+    pub refuse_after_close: Vec<bool>,
 }
 
 #[derive(Default, Clone, Debug)]
@@ -71,6 +91,10 @@ pub struct Mon {
 impl Swarm {
     fn torrent(&self) -> Torrent {
         Torrent::new("T", self.piece_len, &self.files, self.single)
+    }
+
+    fn is_inert(&self, i: usize) -> bool {
+        self.inert.get(i).cloned().unwrap_or(false)
     }
 
     fn live(&self, w: &FullWorld, i: usize) -> bool {
@@ -114,6 +138,14 @@ impl Swarm {
             return out;
         }
         let p = &mon.p[i];
+        if self.is_inert(i) {
+            if !p.hs {
+                out.push(format!("hs{}", i));
+            } else if !fair_only && self.may_close[i] && p.closes < 1 {
+                out.push(format!("cl{}", i));
+            }
+            return out;
+        }
         let owned: Vec<usize> = (0..self.owners[i].len()).filter(|k| self.owners[i][*k]).collect();
         if !p.hs {
             out.push(format!("hs{}", i));
@@ -174,7 +206,8 @@ impl Swarm {
         let i: usize = sym[2..].parse().unwrap();
         let t = &w.t;
         let p = &mon.p[i];
-        let hs = refwire::encode(&refwire::handshake(t.meta.info_hash(), &w.peers[i].cfg.id));
+        let id_of = self.present_id_of.get(i).cloned().flatten().unwrap_or(i);
+        let hs = refwire::encode(&refwire::handshake(t.meta.info_hash(), &w.peers[id_of].cfg.id));
         let bf = refwire::encode(&Msg::Bitfield(refwire::bitfield_bytes(&self.owners[i])));
         match &sym[..2] {
             "hs" => vec![FEv::Feed(i, hs)],
@@ -322,8 +355,19 @@ impl Sys for Swarm {
         let first = self.tracker_first.clone().unwrap_or_else(|| all.clone());
         let later = self.tracker_later.clone().unwrap_or(all);
         let w = FullWorld::new_gated(&t, &cfgs, vec![TrackerOutcome::Good(first)], TrackerOutcome::Good(later), dir, self.gated);
+        let mut w = w;
         let mut mon = Mon::default();
         self.sync(&w, &mut mon);
+        for i in 0..self.owners.len() {
+            if self.is_inert(i) && self.live(&w, i) {
+                let sym = format!("hs{}", i);
+                for ev in self.events_for(&w, &mon, &sym) {
+                    w.step(&ev);
+                }
+                self.note(&mut mon, &sym);
+                self.sync(&w, &mut mon);
+            }
+        }
         (w, mon)
     }
     fn dead(&self, w: &FullWorld) -> bool {
@@ -361,6 +405,12 @@ impl Sys for Swarm {
     }
     fn apply(&self, w: &mut FullWorld, mon: &Mon, sym: &str, digits: &[usize], verbose: bool) -> Vec<(usize, usize, usize, bool)> {
         let evs = self.events_for(w, mon, sym);
+        if sym.starts_with("cl") {
+            let i: usize = sym[2..].parse().unwrap();
+            if self.refuse_after_close.get(i).cloned().unwrap_or(false) {
+                w.set_refuse(i, true);
+            }
+        }
         let mut log: Vec<(usize, usize, usize, bool)> = vec![];
         let mut used = 0;
         for ev in &evs {
@@ -380,31 +430,70 @@ impl Sys for Swarm {
         log
     }
     fn check(&self, w: &FullWorld, mon: &mut Mon, last: Option<&str>) -> Option<(&'static str, String)> {
+        let gen_before: Vec<usize> = mon.p.iter().map(|p| p.generation).collect();
         if let Some(sym) = last {
             self.note(mon, sym);
         }
         self.sync(w, mon);
-        if !self.storage_only {
+        if self.focus != Focus::Storage {
             if let Some(v) = self.health(w) {
                 return Some(v);
             }
         }
-        if let Some(snap) = w.snap() {
-            for (i, st) in snap.statuses.iter().enumerate() {
-                let have = *st == Status::Have;
-                if have && !w.has_piece_file(i) {
-                    return Some(("piece-counted-as-done-without-stored-data", format!("piece {} is Have but no verified piece file exists; {}", i, w.session_key())));
+        if self.focus == Focus::Identity {
+            if let Some(sym) = last {
+                if sym.starts_with("hs") || sym.starts_with("hb") {
+                    let i: usize = sym[2..].parse().unwrap();
+                    let own_id = self.present_id_of.get(i).cloned().flatten().is_none();
+                    // the connection that carried this handshake is still the peer's connection and
+                    // the manager still lists the peer (a dropped peer may be dialled again at once:
+                    // that shows as a new connection)
+                    let same_conn = gen_before.get(i).cloned() == Some(w.peers[i].connects);
+                    let kept = same_conn && w.listed(i) && w.peers[i].conn.as_ref().map(|c| !c.closed_by_peer).unwrap_or(false);
+                    if own_id && !kept {
+                        return Some(("announced-id-rejected", format!("peer {} presented the peer id the tracker announced for its address and was dropped; {}", i, w.session_key())));
+                    }
+                    if !own_id && kept {
+                        return Some(("foreign-id-accepted", format!("peer {} presented another peer's id (not the one announced for its address) and is still connected; {}", i, w.session_key())));
+                    }
                 }
-                if mon.had.len() <= i {
-                    mon.had.push(false);
+            }
+            return None;
+        }
+        if self.focus == Focus::All || self.focus == Focus::Storage {
+            if let Some(snap) = w.snap() {
+                for (i, st) in snap.statuses.iter().enumerate() {
+                    let have = *st == Status::Have;
+                    if have && !w.has_piece_file(i) {
+                        return Some(("piece-counted-as-done-without-stored-data", format!("piece {} is Have but no verified piece file exists; {}", i, w.session_key())));
+                    }
+                    if mon.had.len() <= i {
+                        mon.had.push(false);
+                    }
+                    if mon.had[i] && !have {
+                        return Some(("owned-piece-forgotten", format!("piece {} was owned and is now {:?}; {}", i, st, w.session_key())));
+                    }
+                    mon.had[i] = have;
                 }
-                if mon.had[i] && !have {
-                    return Some(("owned-piece-forgotten", format!("piece {} was owned and is now {:?}; {}", i, st, w.session_key())));
-                }
-                mon.had[i] = have;
             }
         }
-        if self.storage_only {
+        if self.focus == Focus::Storage {
+            return None;
+        }
+        // the manager's own records: a reservation is held by a connected peer that may be asked.
+        // (Nothing more is demanded: in the end game several peers hold one piece, and a leaving
+        // holder resets the piece to Missing while another still fetches it, which only makes the
+        // piece assignable early.)
+        if let Some(snap) = w.snap() {
+            for (i, st) in snap.statuses.iter().enumerate() {
+                if let Status::Reserved(n) = st {
+                    if !snap.peers.iter().any(|p| p.piece_index == Some(i) && !p.choked) {
+                        return Some(("reservation-without-holder", format!("piece {} is Reserved({}) but no connected, unchoking peer is assigned to it; {}", i, n, w.session_key())));
+                    }
+                }
+            }
+        }
+        if self.focus == Focus::Reservation {
             return None;
         }
         self.hanging(w, mon)
@@ -436,7 +525,7 @@ impl Sys for Swarm {
         t
     }
     fn final_check(&self, w: &mut FullWorld, mon: &mut Mon, verbose: bool) -> Option<(&'static str, String)> {
-        if self.storage_only {
+        if self.focus != Focus::All {
             return None;
         }
         // fair default continuation: every honest peer keeps doing the next thing its script asks
@@ -470,6 +559,12 @@ impl Sys for Swarm {
             let sym = match next {
                 Some(s) => s,
                 None => {
+                    // connections that merely stay alive do so: one live message per interval
+                    for i in 0..self.owners.len() {
+                        if self.is_inert(i) && self.live(w, i) && mon.p[i].hs && waited % 120_000 == 0 {
+                            w.step(&FEv::Feed(i, refwire::encode(&Msg::Choke)));
+                        }
+                    }
                     if waited >= 900_000 {
                         let why = self.complete(w).err().unwrap_or_default();
                         return Some((
@@ -508,6 +603,89 @@ impl Sys for Swarm {
     }
 }
 
+/// 14 addresses: D (0, leaves and does not come back), S1..S9 (1..=9, inert), Z (10, inert, leaves
+/// first), E (11, the only seeder), T1, T2 (12, 13, inert). First announce: [D, S1..S9, Z]; later
+/// ones: [E, D, S1..S9, T1, T2] — after the dial budget E and D are left over as candidates.
+fn many_addresses() -> Swarm {
+    let n = 14;
+    let mut owners = vec![own(3, &[]); n];
+    owners[11] = own(3, &[0, 1, 2]);
+    let mut inert = vec![true; n];
+    inert[11] = false;
+    let mut may_close = vec![false; n];
+    may_close[0] = true;
+    may_close[10] = true;
+    let mut refuse = vec![false; n];
+    refuse[0] = true;
+    refuse[10] = true;
+    let first: Vec<usize> = (0..=10).collect();
+    let mut later: Vec<usize> = vec![11, 0];
+    later.extend(1..=9);
+    later.extend([12, 13]);
+    Swarm {
+        label: "14-addresses-leftover-candidates",
+        piece_len: 5,
+        files: vec![("f", 13)],
+        single: true,
+        owners,
+        may_close,
+        by_have: vec![false; n],
+        with_choke: false,
+        with_interest: false,
+        with_segmentation: false,
+        ticks: 0,
+        tie_breaks: false,
+        races: false,
+        same_addr: vec![],
+        tracker_first: Some(first),
+        tracker_later: Some(later),
+        gated: false,
+        focus: Focus::All, present_id_of: vec![],
+        inert,
+        refuse_after_close: refuse,
+    }
+}
+
+/// 12 entries in one reply, first and last naming the same address: entry 11 is a stale listing of
+/// host X under an old peer id (nobody answers under it), entry 0 is X as it is now (the seeder);
+/// P1..P10 (1..=10) are inert and P1 may leave. The dial budget takes 11 entries from the end of
+/// [stale X, P1..P10, X], so the stale entry stays behind as a candidate for an address that is
+/// connected by then.
+fn duplicate_address() -> Swarm {
+    let n = 12;
+    let mut owners = vec![own(3, &[]); n];
+    owners[0] = own(3, &[0, 1, 2]);
+    let mut inert = vec![true; n];
+    inert[0] = false;
+    let mut may_close = vec![false; n];
+    may_close[1] = true;
+    let mut order: Vec<usize> = vec![11];
+    order.extend(1..=10);
+    order.push(0);
+    Swarm {
+        label: "12-entries-duplicate-address",
+        piece_len: 5,
+        files: vec![("f", 13)],
+        single: true,
+        owners,
+        may_close,
+        by_have: vec![false; n],
+        with_choke: false,
+        with_interest: false,
+        with_segmentation: false,
+        ticks: 0,
+        tie_breaks: false,
+        races: false,
+        same_addr: vec![(11, 0)],
+        tracker_first: Some(order.clone()),
+        tracker_later: Some(order),
+        gated: false,
+        focus: Focus::All, present_id_of: vec![],
+        inert,
+        refuse_after_close: vec![false; n],
+    }
+}
+
 fn own(n: usize, idx: &[usize]) -> Vec<bool> {
     (0..n).map(|i| idx.contains(&i)).collect()
 }
@@ -519,15 +697,58 @@ pub fn storage_scenarios() -> Vec<(Swarm, usize)> {
         .into_iter()
         .filter(|(s, _)| s.label == "3pc-restarted-peer" || s.label == "3pc-two-seeders-gated")
         .map(|(mut s, d)| {
-            s.storage_only = true;
+            s.focus = Focus::Storage;
             s.label = if s.label == "3pc-restarted-peer" { "storage-3pc-restarted-peer" } else { "storage-3pc-two-seeders-gated" };
             (s, d)
         })
         .collect()
 }
 
+/// Scenarios C12 borrows (reservation records only).
+pub fn reservation_scenarios() -> Vec<(Swarm, usize)> {
+    scenarios(false)
+        .into_iter()
+        .filter(|(s, _)| s.label == "12-entries-duplicate-address" || s.label == "3pc-restarted-peer" || s.label == "3pc-seeder+leaver")
+        .map(|(mut s, d)| {
+            s.focus = Focus::Reservation;
+            s.label = match s.label {
+                "12-entries-duplicate-address" => "reservation-12-entries-duplicate-address",
+                "3pc-restarted-peer" => "reservation-3pc-restarted-peer",
+                _ => "reservation-3pc-seeder+leaver",
+            };
+            (s, d)
+        })
+        .collect()
+}
+
+/// Scenarios C08 borrows (peer identity only): a re-announce lists a connected address followed by a
+/// new one; the new peer presents its own id (must stay) or the id of the connected one (must go).
+pub fn identity_scenarios() -> Vec<(Swarm, usize)> {
+    let mut out = vec![];
+    for (s, d) in scenarios(false) {
+        if s.label == "relisted-then-new" {
+            let mut a = s.clone();
+            a.focus = Focus::Identity;
+            a.label = "identity-relisted-then-new";
+            out.push((a, d));
+            let mut b = s.clone();
+            b.focus = Focus::Identity;
+            b.label = "identity-relisted-then-impostor";
+            b.present_id_of = vec![None, Some(0), None];
+            out.push((b, d));
+        }
+        if s.label == "3pc-restarted-peer" {
+            let mut a = s.clone();
+            a.focus = Focus::Identity;
+            a.label = "identity-3pc-restarted-peer";
+            out.push((a, d));
+        }
+    }
+    out
+}
+
 pub fn scenarios(thorough: bool) -> Vec<(Swarm, usize)> {
-    let base = Swarm { label: "", piece_len: 5, files: vec![("f", 13)], single: true, owners: vec![], may_close: vec![], by_have: vec![], with_choke: false, with_interest: false, with_segmentation: false, ticks: 0, tie_breaks: true, races: false, same_addr: vec![], tracker_first: None, tracker_later: None, gated: false, storage_only: false };
+    let base = Swarm { label: "", piece_len: 5, files: vec![("f", 13)], single: true, owners: vec![], may_close: vec![], by_have: vec![], with_choke: false, with_interest: false, with_segmentation: false, ticks: 0, tie_breaks: true, races: false, same_addr: vec![], tracker_first: None, tracker_later: None, gated: false, focus: Focus::All, present_id_of: vec![], inert: vec![], refuse_after_close: vec![] };
     let mut v = vec![
         // 3 single-block pieces (last one short), one seeder
         (Swarm { label: "3pc-1seeder", owners: vec![own(3, &[0, 1, 2])], may_close: vec![false], by_have: vec![false], with_choke: true, with_interest: true, ticks: 1, ..base.clone() }, 16),
@@ -549,6 +770,13 @@ pub fn scenarios(thorough: bool) -> Vec<(Swarm, usize)> {
         // a host that restarts with a new peer id while the client is still connected to its old
         // incarnation: the second announce lists the same address with another id
         (Swarm { label: "3pc-restarted-peer", owners: vec![own(3, &[0, 1, 2]), own(3, &[0]), own(3, &[0, 1, 2])], may_close: vec![false, true, false], by_have: vec![false, false, false], same_addr: vec![(2, 0)], tracker_first: Some(vec![0, 1]), tracker_later: Some(vec![2, 1]), ..base.clone() }, 12),
+        // tracker replies longer than the dial budget (11) leave candidates behind; a connected
+        // peer is listed again; one seeder (E) sits at the bottom of the leftover candidates
+        (many_addresses(), 7),
+        // one reply lists the same address twice (a host still listed under its old peer id)
+        (duplicate_address(), 8),
+        // a re-announce lists a connected address followed by a new one
+        (Swarm { label: "relisted-then-new", owners: vec![own(3, &[0, 1]), own(3, &[2]), own(3, &[])], may_close: vec![false, false, true], by_have: vec![false, false, false], tracker_first: Some(vec![0, 2]), tracker_later: Some(vec![1, 0]), ..base.clone() }, 12),
         // multi-block pieces, multi-file layout with a boundary inside a piece and a zero-length file
         (Swarm { label: "2x16387-multifile", piece_len: 16387, files: vec![("a", 100), ("d/b", 0), ("c", 16387 * 2 - 100 - 7)], single: false, owners: vec![own(2, &[0, 1]), own(2, &[1])], may_close: vec![false, true], by_have: vec![false, false], with_segmentation: true, ..base.clone() }, 12),
     ];
@@ -702,7 +930,7 @@ fn unseamed_part(ctx: &Ctx) -> (u64, Vec<Value>) {
 }
 
 fn unseamed_extra() -> Vec<(Swarm, usize)> {
-    let base = Swarm { label: "", piece_len: 5, files: vec![("f", 13)], single: true, owners: vec![], may_close: vec![], by_have: vec![], with_choke: false, with_interest: false, with_segmentation: false, ticks: 0, tie_breaks: false, races: false, same_addr: vec![], tracker_first: None, tracker_later: None, gated: false, storage_only: false };
+    let base = Swarm { label: "", piece_len: 5, files: vec![("f", 13)], single: true, owners: vec![], may_close: vec![], by_have: vec![], with_choke: false, with_interest: false, with_segmentation: false, ticks: 0, tie_breaks: false, races: false, same_addr: vec![], tracker_first: None, tracker_later: None, gated: false, focus: Focus::All, present_id_of: vec![], inert: vec![], refuse_after_close: vec![] };
     vec![(Swarm { label: "e2e-2x16387-multifile-1seeder", piece_len: 16387, files: vec![("a", 100), ("d/b", 0), ("c", 16387 * 2 - 100 - 7)], single: false, owners: vec![own(2, &[0, 1])], may_close: vec![false], by_have: vec![false], ..base }, 0)]
 }
 
@@ -711,6 +939,12 @@ pub fn run(ctx: &Ctx) -> Outcome {
     let mut total = explore::Stats { exhaustive: true, ..Default::default() };
     let mut per = vec![];
     for (s, depth) in scenarios(thorough) {
+        // debugging aid only: RDV_ONLY=<substring> restricts the run to matching scenarios
+        if let Ok(only) = std::env::var("RDV_ONLY") {
+            if !s.name().contains(&only) {
+                continue;
+            }
+        }
         let depth = if thorough { depth + 3 } else { depth };
         let st = explore::bfs(ctx, &s, depth, ctx.tier.pick(60, 30));
         per.push(json!({"scenario": s.name(), "depth": depth, "states": st.states, "transitions": st.transitions, "depth_completed": st.depth_completed, "terminal_states": st.terminal_states, "frontier": st.frontier_sizes}));
@@ -722,7 +956,7 @@ pub fn run(ctx: &Ctx) -> Outcome {
     o.set("unseamed_replays", json!(unseamed));
     o.set("unseamed_replay_details", Value::Array(unseamed_rows));
     o.set("scenarios", Value::Array(per));
-    o.set("rule", json!("full-session world; honest peer i: hs handshake, bf bitfield (first message) or hv next Have, un unchoke, ao/an correct answer to the oldest/newest outstanding request, as the same answer split into two reads, hb handshake+bitfield in one read, ck one choke (then un again), in/ni interest, cl disconnect (only peers whose pieces have another owner; they are offered again by the next announce), xa/xc an answer of one peer and the disconnect of another arriving before the client runs (both orders), rl release of one held-back manager broadcast to a connection task (gated scenario), tick = 10 s of virtual time; BFS over all orders to the stated depth; in every state: no task panicked, session alive, Have implies a stored verified piece, an owned piece stays owned, no connection task waits for a block its honest peer already delivered; every state that is not expanded further must reach 'all pieces owned, extractor ran, every output file byte-identical, event loop still iterating' under the fair default continuation (each honest peer does its next scripted action, otherwise time passes up to a 900 s horizon)."));
+    o.set("rule", json!("full-session world; honest peer i: hs handshake, bf bitfield (first message) or hv next Have, un unchoke, ao/an correct answer to the oldest/newest outstanding request, as the same answer split into two reads, hb handshake+bitfield in one read, ck one choke (then un again), in/ni interest, cl disconnect (only peers whose pieces have another owner; they are offered again by the next announce), xa/xc an answer of one peer and the disconnect of another arriving before the client runs (both orders), rl release of one held-back manager broadcast to a connection task (gated scenario), tick = 10 s of virtual time; inert peers (scenarios with > 11 tracker entries) only keep their connection alive and may leave; BFS over all orders to the stated depth; in every state: no task panicked, session alive, Have implies a stored verified piece, an owned piece stays owned, no connection task waits for a block its honest peer already delivered; every state that is not expanded further must reach 'all pieces owned, extractor ran, every output file byte-identical, event loop still iterating' under the fair default continuation (each honest peer does its next scripted action, otherwise time passes up to a 900 s horizon)."));
     o.assume("unseamed replays: the one-seeder downloads are repeated with the connect seam inactive — the real Session connects over loopback TCP (real clock) to an honest seeder in the harness; the sequence of messages that seeder receives and the extracted files must equal those of the in-memory run (a mismatch is a machinery error)");
     o.assume("fairness: honest peers eventually unchoke, answer every valid request, and an interested peer eventually loses interest or leaves; only outgoing connections exist in this world (an incoming one needs a real socket, which cannot be mixed with the paused clock); every tie-break of the piece chooser is enumerated");
     o
@@ -731,7 +965,7 @@ pub fn run(ctx: &Ctx) -> Outcome {
 pub fn replay(_ctx: &Ctx, r: &Value) -> i32 {
     let name = r["scenario"].as_str().unwrap();
     for thorough in [false, true] {
-        for (s, _) in scenarios(thorough).into_iter().chain(storage_scenarios()) {
+        for (s, _) in scenarios(thorough).into_iter().chain(storage_scenarios()).chain(reservation_scenarios()).chain(identity_scenarios()) {
             if s.name() == name {
                 return explore::replay_verbose(&s, &explore::hist_from_json(&r["history"]), "C02");
             }
